@@ -21,11 +21,22 @@ def make_array(shape, dtype, seed):
     if dt.kind in "iu":
         info = np.iinfo(dt)
         lo, hi = max(info.min, -(2**31)), min(info.max, 2**31)
-        a = rng.integers(lo, hi, size=shape, endpoint=True)
-        # make extremes likely so that narrow accumulators overflow
-        m = rng.random(shape)
-        a = np.where(m < 0.25, hi, np.where(m > 0.85, lo, a))
-        return a.astype(dt)
+        # value regimes (chosen by the seed): full range with forced extremes; lopsided towards the minimum
+        # (small maximum: one-sided overflow guards stay silent); lopsided towards the maximum; small values
+        regime = int(rng.integers(0, 4))
+        if regime == 0 or dt.kind == "u" and regime == 1:
+            a = rng.integers(lo, hi, size=shape, endpoint=True)
+            m = rng.random(shape)
+            a = np.where(m < 0.25, hi, np.where(m > 0.85, lo, a))
+        elif regime == 1:
+            a = rng.integers(lo, lo // 2, size=shape, endpoint=True)
+            a = np.where(rng.random(shape) < 0.2, rng.integers(0, 50, size=shape), a)
+        elif regime == 2:
+            a = rng.integers(hi // 2, hi, size=shape, endpoint=True)
+            a = np.where(rng.random(shape) < 0.2, rng.integers(0, 50, size=shape), a)
+        else:
+            a = rng.integers(max(lo, -20), min(hi, 20), size=shape, endpoint=True)
+        return np.asarray(a).astype(dt)
     if dt.kind == "f":
         return (rng.standard_normal(shape) * 10.0 ** rng.integers(-2, 3)).astype(dt)
     return (rng.standard_normal(shape) + 1j * rng.standard_normal(shape)).astype(dt)
